@@ -256,8 +256,28 @@ def _alts(v, pre):
     return {v, pre + v} if not v.startswith(pre) else {v, v[len(pre):]}
 
 
+def _field_alternatives(v):
+    """A $deref field value is a literal or [ {$or: [literal, ...]} ] (C03)."""
+    if isinstance(v, list) and len(v) == 1 and isinstance(v[0], dict) and list(v[0]) == ["$or"]:
+        out = []
+        for alt in v[0]["$or"]:
+            out.extend(_field_alternatives(alt))
+        return out
+    return [v]
+
+
 def deref_match(fields, op):
-    """fields: dict of the four $deref keys (values literal); op: operand in stream normal form."""
+    """fields: dict of the four $deref keys; op: operand in stream normal form."""
+    import itertools
+
+    keys = [k for k in ("main_reg", "register_multiplier", "constant_multiplier", "constant_offset") if fields.get(k) is not None]
+    choices = [_field_alternatives(fields[k]) for k in keys]
+    if any(len(c) != 1 for c in choices):
+        return any(_deref_match_literal(dict(zip(keys, combo)), op) for combo in itertools.product(*choices))
+    return _deref_match_literal({k: c[0] for k, c in zip(keys, choices)}, op)
+
+
+def _deref_match_literal(fields, op):
     a = fields.get("main_reg")
     b = fields.get("register_multiplier")
     c = fields.get("constant_multiplier")
